@@ -193,6 +193,7 @@ class Target:
         else:
             self.comps = [(float(c.get("w", 1.0)), [make_factor(f) for f in c["factors"]]) for c in spec["comps"]]
         self.n_points = 0
+        self.n_neginf = 0  # how many of the evaluated points had zero likelihood, counted by the user's model itself (not by what the library makes of the value)
         self.n_tf = 0
         Target._next_uid += 1
         self.uid = Target._next_uid
@@ -253,6 +254,7 @@ class Target:
         """Scalar callback."""
         self.n_points += 1
         v = self._maybe_dead(self.logl_pure(x), self.n_points - 1)
+        self.n_neginf += v == -math.inf
         if self.nblobs:
             return (v,) + self.blob_pure(x)
         return v
@@ -262,6 +264,7 @@ class Target:
         scale=1.0, offset=0.0 the value is bit-identical to loglike(x)."""
         self.n_points += 1
         v = self.logl_pure(x) * scale + offset
+        self.n_neginf += v == -math.inf
         if self.nblobs:
             return (v,) + self.blob_pure(x)
         return v
@@ -269,12 +272,15 @@ class Target:
     def loglike_vec_args(self, X, scale, offset=0.0):
         X = np.asarray(X)
         self.n_points += len(X)
-        return np.array([self.logl_pure(row) * scale + offset for row in X])
+        out = np.array([self.logl_pure(row) * scale + offset for row in X])
+        self.n_neginf += int(np.sum(np.isneginf(out)))
+        return out
 
     def loglike_np(self, x):
         """Scalar callback returning a numpy scalar / 1-element array instead of a Python float (same value)."""
         self.n_points += 1
         v = self.logl_pure(x)
+        self.n_neginf += v == -math.inf
         return np.float64(v) if self.ret == "npfloat" else np.asarray(v) if self.ret == "arr0" else np.array([v])
 
     ret = "pyfloat"
@@ -283,7 +289,9 @@ class Target:
         X = np.asarray(X)
         k0 = self.n_points
         self.n_points += len(X)
-        return np.array([self._maybe_dead(self.logl_pure(row), k0 + i) for i, row in enumerate(X)])
+        out = np.array([self._maybe_dead(self.logl_pure(row), k0 + i) for i, row in enumerate(X)])
+        self.n_neginf += int(np.sum(np.isneginf(out)))
+        return out
 
     # -- oracles ----------------------------------------------------------------------
     def support_hi(self):
